@@ -372,7 +372,7 @@ MUTANTS = [
     {'id': 'entry_fields_swapped', 'file': 'vpk.py', 'find': "                            info.offset,\n                            info.arch_len,\n                            0xffff,", 'replace': "                            info.arch_len,\n                            info.offset,\n                            0xffff,", 'expect': 'C13.Z2'},
     {'id': 'entry_format_changed', 'file': 'vpk.py', 'find': "                        file.write(struct.pack(\n                            '<IHHIIH',", 'replace': "                        file.write(struct.pack(\n                            '<IHHIIh',", 'expect': 'C13.Z2'},
     {'id': 'missing_level_terminator', 'file': 'vpk.py', 'find': "                    file.write(b'\\x00')\n                file.write(b'\\x00')\n            file.write(b'\\x00')", 'replace': "                    file.write(b'\\x00')\n                file.write(b'\\x00')", 'expect': 'C13.Z2'},
-    {'id': 'tail_written_to_dir_file', 'file': 'vpk.py', 'find': "            if arch_index is None:\n                self.offset = len(self.vpk.footer_data)", 'replace': "            if False:\n                self.offset = len(self.vpk.footer_data)", 'expect': 'C13.Z3'},
+    {'id': 'tail_written_to_dir_file', 'file': 'vpk.py', 'find': "            if arch_index is None:\n                # Stored after the directory tree.", 'replace': "            if False:\n                # Stored after the directory tree.", 'expect': 'C13.Z3'},
     {'id': 'contains_raw_lookup', 'file': 'vpk.py', 'find': "        path, filename, ext = _get_file_parts(item)\n\n        try:\n            return filename in self._fileinfo[ext][path]", 'replace': "        path, filename, ext = os.path.dirname(item), os.path.basename(item), ''\n\n        try:\n            return filename in self._fileinfo[ext][path]", 'expect': 'C13.Z4'},
     {'id': 'ext_split_first_dot', 'file': 'vpk.py', 'find': "        filename, ext = filename.rsplit('.', 1)", 'replace': "        filename, ext = filename.split('.', 1)", 'expect': 'C13.Z4'},
     {'id': 'ext_split_rpartition', 'file': 'vpk.py', 'find': "        filename, ext = filename.rsplit('.', 1)", 'replace': "        filename, _, ext = filename.rpartition('.')", 'expect': None, 'note': 'negative control: same split point'},
